@@ -420,21 +420,34 @@ def rbFixSize : Tree K V → Outcome (Tree K V)
   | nil => .panic
   | node l k v _ h c r => .ok (node l k v (1 + l.sz + r.sz) h c r)
 
-/-- the three fix-up steps shared by `_put` (with `strict = true`: `isRed(right) && !isRed(left)`) and
-`balance` (`strict = false`: `isRed(right)`) -/
+/-- `if isRed(n.right) [&& !isRed(n.left)] { n = rotateLeft(n) }`; `_put` has the second conjunct
+(`strict = true`), `balance` does not (`strict = false`) -/
+def rbFix1 (strict : Bool) (n : Tree K V) : Outcome (Tree K V) := do
+  let r ← rightOf n
+  let l ← leftOf n
+  if r.isRed && (!strict || !l.isRed) then rbRotateLeft n else pure n
+
+/-- `if isRed(n.left) && isRed(n.left.left) { n = rotateRight(n) }`: `&&` short-circuits, `n.left.left` is
+only read when `n.left` is red (hence non-nil) -/
+def rbFix2 (n : Tree K V) : Outcome (Tree K V) := do
+  let l ← leftOf n
+  if l.isRed then do
+    let ll ← leftOf l
+    if ll.isRed then rbRotateRight n else pure n
+  else pure n
+
+/-- `if isRed(n.left) && isRed(n.right) { flipColors(n) }` -/
+def rbFix3 (n : Tree K V) : Outcome (Tree K V) := do
+  let l ← leftOf n
+  let r ← rightOf n
+  if l.isRed && r.isRed then rbFlipColors n else pure n
+
+/-- the fix-up sequence shared by `_put` (`strict = true`) and `balance` (`strict = false`), followed by
+`n.size = 1 + size(n.left) + size(n.right)` -/
 def rbFixUp (strict : Bool) (n : Tree K V) : Outcome (Tree K V) := do
-  let r ← rightOf n
-  let l ← leftOf n
-  let n ← if r.isRed && (!strict || !l.isRed) then rbRotateLeft n else pure n
-  let l ← leftOf n
-  -- `isRed(n.left) && isRed(n.left.left)`: `&&` short-circuits, `n.left.left` is only read when n.left is red
-  let n ← if l.isRed then do
-            let ll ← leftOf l
-            if ll.isRed then rbRotateRight n else pure n
-          else pure n
-  let l ← leftOf n
-  let r ← rightOf n
-  let n ← if l.isRed && r.isRed then rbFlipColors n else pure n
+  let n ← rbFix1 strict n
+  let n ← rbFix2 n
+  let n ← rbFix3 n
   rbFixSize n
 
 /-- `balance(n)` -/
@@ -755,6 +768,12 @@ def runFrom (kind : Kind) (cmp : K → K → Int) (eqVal : V → V → Bool) :
     let (s', o) ← step kind cmp eqVal s op
     let (s'', os) ← runFrom kind cmp eqVal s' ops
     pure (s'', o :: os)
+
+/-- the two comparators the harness instantiates `cmpKey` with (`generic.NewCompareFunc[int]()` and its
+reverse), and its `eqVal` -/
+def cmpAsc (a b : Int) : Int := if a < b then -1 else if a > b then 1 else 0
+def cmpDesc (a b : Int) : Int := if a > b then -1 else if a < b then 1 else 0
+def eqInt (a b : Int) : Bool := a == b
 
 /-- run a history on two fresh tables (`NewBST/NewAVL/NewRedBlack(cmp, eqVal)` twice) -/
 def run (kind : Kind) (cmp : K → K → Int) (eqVal : V → V → Bool) (ops : List (Op K V)) :
